@@ -44,6 +44,141 @@ func checkC10(p *Prog, r *Report) {
 	c10Tokens(p, r)
 	c10MetadataImmutable(p, r)
 	c10PrepareAgrees(p, r)
+	c10PeerDC(p, r)
+	c10AddressOrder(p, r)
+}
+
+// c10PeerDC: a peer entry without a data center gets this proxy's own effective data center (the
+// one its local node is presented with), so that proxies sharing one peer list and started with
+// the same data center present the same ring.
+func c10PeerDC(p *Prog, r *Report) {
+	const rule = "C10.peer-dc-default"
+	r.Rule(rule, "a peer without a configured data center is presented in the data center of the local node (the configured one, else the backend's): the fallback value of a peer node's dc is the very value the local node's dc is built from")
+	dcF := p.Field("proxy", "node", "dc")
+	isNode := func(t types.Type) bool { return typeIs(t, "proxy", "node") }
+	// the node literals, wherever they are built (one function, or a builder and its helpers)
+	var lits []map[string]ssa.Value
+	var builder *ssa.Function
+	for _, fn := range p.ScopedFuncs("proxy") {
+		if ls := structLits(fn, isNode); len(ls) > 0 {
+			lits = append(lits, ls...)
+			if builder == nil || fn.Pos() < builder.Pos() {
+				builder = fn
+			}
+		}
+	}
+	if len(lits) < 2 {
+		fatalf("rule %s: the literals of the local and the peer nodes were not found (%d node literals)", rule, len(lits))
+	}
+	// the local node: the literal stored into a *node field of the proxy
+	var local map[string]ssa.Value
+	for _, l := range lits {
+		al := l["\x00pos"]
+		for _, ref := range *al.Referrers() {
+			if st, ok := ref.(*ssa.Store); ok && st.Val == al {
+				if fa, ok := st.Addr.(*ssa.FieldAddr); ok && typeIs(fieldOfAddr(fa).Type(), "proxy", "node") {
+					local = l
+				}
+			}
+		}
+	}
+	var bad []string
+	if local == nil {
+		bad = append(bad, "no node literal is kept as the proxy's local node")
+	}
+	npeer := 0
+	for _, l := range lits {
+		if local == nil || l["\x00pos"] == local["\x00pos"] {
+			continue
+		}
+		npeer++
+		dc := l[dcF.Name()]
+		if dc == nil {
+			bad = append(bad, "a peer node is built without a data center")
+			continue
+		}
+		phi, isPhi := dc.(*ssa.Phi)
+		if !isPhi {
+			continue // always the configured value: nothing defaulted here
+		}
+		for _, e := range phi.Edges {
+			// the configured value of the peer entry
+			if strings.HasSuffix(fieldPath(e), ".DC") && !strings.Contains(fieldPath(e), "config") {
+				continue
+			}
+			if f, _ := loadedField(e); f != nil && f.Name() == "DC" {
+				if _, base := loadedField(e); base != nil && !strings.Contains(fieldPath(base), "config") {
+					continue
+				}
+			}
+			ok := e == local[dcF.Name()] || sameValue(e, local[dcF.Name()])
+			if f, _ := loadedField(e); f == dcF {
+				ok = true // read back from the local node
+			}
+			if !ok {
+				bad = append(bad, fmt.Sprintf("%s: a peer without a data center defaults to %s, not to the local node's data center (%s): with an explicit --data-center the peers are presented in another data center than this proxy, and proxies sharing the list disagree about the ring", p.Pos(phi.Pos()), valDesc(e), valDesc(local[dcF.Name()])))
+			}
+		}
+	}
+	if npeer == 0 {
+		bad = append(bad, "no peer node literal found")
+	}
+	r.check(len(bad) == 0, rule, "peer node data center", p.Pos(builder.Pos()), fmt.Sprintf("%d peer literal(s)", npeer), strings.Join(dedupe(bad), " || "))
+}
+
+// c10AddressOrder: the address comparison that decides "is this peer me" and the order in which
+// tokens are assigned must distinguish all addresses of the quantifier, IPv6 included.
+func c10AddressOrder(p *Prog, r *Report) {
+	const rule = "C10.address-order"
+	r.Rule(rule, "the comparison of two node addresses compares the address bytes as they are (or in 16-byte form): a lossy conversion such as To4(), which is nil for every IPv6 address, makes distinct addresses equal")
+	isIPAddr := func(t types.Type) bool {
+		n := namedOf(t)
+		return n != nil && n.Obj().Name() == "IPAddr" && n.Obj().Pkg() != nil && n.Obj().Pkg().Path() == "net"
+	}
+	var cmps []*ssa.Function
+	for _, fn := range p.ScopedFuncs("proxy") {
+		n := 0
+		for _, par := range fn.Params {
+			if isIPAddr(par.Type()) {
+				n++
+			}
+		}
+		if n >= 2 && fn.Parent() == nil {
+			cmps = append(cmps, fn)
+		}
+	}
+	if len(cmps) == 0 {
+		fatalf("rule %s: no function compares two *net.IPAddr", rule)
+	}
+	for _, fn := range cmps {
+		var bad []string
+		nb := 0
+		for _, f := range withCallees(p, fn, 1) {
+			eachCall(f, func(c ssa.CallInstruction) {
+				callee := c.Common().StaticCallee()
+				if callee == nil {
+					return
+				}
+				switch callee.String() {
+				case "bytes.Compare", "bytes.Equal", "(net.IP).Equal":
+				default:
+					return
+				}
+				nb++
+				for _, a := range c.Common().Args {
+					for _, o := range origins(a) {
+						if cc, ok := o.(*ssa.Call); ok && cc.Call.StaticCallee() != nil && cc.Call.StaticCallee().String() == "(net.IP).To4" {
+							bad = append(bad, p.Pos(c.Pos())+": addresses are compared in their To4() form, which is nil for every IPv6 address: all IPv6 nodes compare equal (peers dropped as 'the local address', tokens not assigned in address order)")
+						}
+					}
+				}
+			})
+		}
+		if nb == 0 {
+			bad = append(bad, "the address bytes are not compared")
+		}
+		r.check(len(bad) == 0, rule, "proxy."+fn.Name(), p.Pos(fn.Pos()), fmt.Sprintf("%d byte comparison(s)", nb), strings.Join(dedupe(bad), " || "))
+	}
 }
 
 func exprString(e ast.Expr) string {
@@ -199,14 +334,239 @@ func producersIn(p *Prog, pkg string, fnName string) map[string]string {
 	return out
 }
 
+// isDataType: the cassandra-protocol datatype.DataType interface.
+func isDataType(t types.Type) bool {
+	n := namedOf(t)
+	return n != nil && n.Obj().Name() == "DataType" && n.Obj().Pkg() != nil && strings.HasSuffix(n.Obj().Pkg().Path(), "/datatype")
+}
+
+func isByteSlice(t types.Type) bool {
+	sl, ok := t.Underlying().(*types.Slice)
+	if !ok {
+		return false
+	}
+	b, ok := sl.Elem().Underlying().(*types.Basic)
+	return ok && b.Kind() == types.Byte
+}
+
+// dtString renders a datatype value the way the column tables spell it (datatype.Inet,
+// datatype.NewList(datatype.Varchar)).
+func dtString(v ssa.Value) string {
+	switch x := v.(type) {
+	case *ssa.MakeInterface:
+		return dtString(x.X)
+	case *ssa.ChangeInterface:
+		return dtString(x.X)
+	case *ssa.ChangeType:
+		return dtString(x.X)
+	case *ssa.UnOp:
+		if g, ok := x.X.(*ssa.Global); ok && x.Op == token.MUL && g.Pkg != nil && strings.HasSuffix(g.Pkg.Pkg.Path(), "/datatype") {
+			return "datatype." + g.Name()
+		}
+	case *ssa.Call:
+		if f := x.Call.StaticCallee(); f != nil && f.Pkg != nil && strings.HasSuffix(f.Pkg.Pkg.Path(), "/datatype") {
+			var as []string
+			for _, a := range x.Call.Args {
+				as = append(as, dtString(a))
+			}
+			return "datatype." + f.Name() + "(" + strings.Join(as, ",") + ")"
+		}
+	}
+	return "?"
+}
+
+// encodedWith: v is the result of an encoding call (directly, as the first result of a tuple, or
+// through a small local/private helper that fixes the datatype); returns the datatype spelling.
+func encodedWith(p *Prog, v ssa.Value, depth int) string {
+	for _, o := range origins(v) {
+		if ex, ok := o.(*ssa.Extract); ok {
+			o = ex.Tuple
+		}
+		c, ok := o.(*ssa.Call)
+		if !ok {
+			continue
+		}
+		for _, a := range c.Call.Args {
+			if isDataType(a.Type()) {
+				if dt := dtString(a); dt != "?" {
+					return dt
+				}
+			}
+		}
+		if depth <= 0 {
+			continue
+		}
+		callee := c.Call.StaticCallee()
+		if mc, ok := c.Call.Value.(*ssa.MakeClosure); ok {
+			callee, _ = mc.Fn.(*ssa.Function)
+		}
+		if callee == nil {
+			// a local `enc := func(v T) []byte {...}` read back from its variable
+			for _, oo := range origins(c.Call.Value) {
+				if mc, ok := oo.(*ssa.MakeClosure); ok {
+					callee, _ = mc.Fn.(*ssa.Function)
+				}
+				if f, ok := oo.(*ssa.Function); ok {
+					callee = f
+				}
+			}
+		}
+		if callee == nil || callee.Blocks == nil || !p.InRepo(callee) {
+			continue
+		}
+		dt := ""
+		eachInstr(callee, func(in ssa.Instruction) {
+			if ret, ok := in.(*ssa.Return); ok && len(ret.Results) > 0 {
+				if d := encodedWith(p, ret.Results[0], depth-1); d != "" {
+					dt = d
+				}
+			}
+		})
+		if dt != "" {
+			return dt
+		}
+	}
+	return ""
+}
+
+// caseBody: every way into block t is the true edge of a comparison with a constant (the body of
+// `if x == "a"` or of `case "a", "b":`).
+func caseBody(t *ssa.BasicBlock) bool {
+	if len(t.Preds) == 0 {
+		return false
+	}
+	for _, pr := range t.Preds {
+		ifi, ok := lastIf(pr)
+		if !ok || pr.Succs[0] != t || pr.Succs[1] == t {
+			return false
+		}
+		bo, ok := ifi.Cond.(*ssa.BinOp)
+		if !ok || bo.Op != token.EQL {
+			return false
+		}
+		_, cx := bo.X.(*ssa.Const)
+		_, cy := bo.Y.(*ssa.Const)
+		if !cx && !cy {
+			return false
+		}
+	}
+	return true
+}
+
+// lookupProducers: for a value-lookup function (name -> value), the column names it answers by
+// comparing the name with a constant, and the datatype each answer is encoded with
+// ("(precomputed)" when the answer is not an encoding call).
+func lookupProducers(p *Prog, fn *ssa.Function) map[string]string {
+	out := map[string]string{}
+	eachInstr(fn, func(in ssa.Instruction) {
+		bo, ok := in.(*ssa.BinOp)
+		if !ok || bo.Op != token.EQL {
+			return
+		}
+		k, ok := constStr(bo.Y)
+		if !ok {
+			k, ok = constStr(bo.X)
+		}
+		if !ok {
+			return
+		}
+		for _, ref := range *bo.Referrers() {
+			ifi, ok := ref.(*ssa.If)
+			if !ok {
+				continue
+			}
+			t := ifi.Block().Succs[0]
+			if !caseBody(t) {
+				continue
+			}
+			for _, b := range fn.Blocks {
+				if !t.Dominates(b) {
+					continue
+				}
+				for _, bi := range b.Instrs {
+					ret, ok := bi.(*ssa.Return)
+					if !ok || len(ret.Results) == 0 {
+						continue
+					}
+					if dt := encodedWith(p, ret.Results[0], 2); dt != "" {
+						out[k] = dt
+					} else if _, have := out[k]; !have {
+						out[k] = "(precomputed)"
+					}
+				}
+			}
+		}
+	})
+	return out
+}
+
+// c10ProducerSets finds the value producers by role: the functions handed to parser.FilterValues
+// as value lookup (the one answering a column that only system.peers has is the peers producer),
+// and every constant-keyed entry written into a map of encoded columns (the precomputed local row).
+func c10ProducerSets(p *Prog) (local, localExtra, peerExtra map[string]string, lookups []*ssa.Function) {
+	local, localExtra, peerExtra = map[string]string{}, map[string]string{}, map[string]string{}
+	peersOnly := map[string]bool{}
+	lc := columnTable(p, "SystemLocalColumns")
+	for n := range columnTable(p, "SystemPeersColumns") {
+		if _, both := lc[n]; !both {
+			peersOnly[n] = true
+		}
+	}
+	seen := map[*ssa.Function]bool{}
+	for _, fn := range p.ScopedFuncs("proxy") {
+		eachCall(fn, func(c ssa.CallInstruction) {
+			if !callIsFunc(c, "parser", "FilterValues") || len(c.Common().Args) < 3 {
+				return
+			}
+			if cb := callbackFnOf(p, c.Common().Args[2]); cb != nil && !seen[cb] {
+				seen[cb] = true
+				lookups = append(lookups, cb)
+			}
+		})
+		eachInstr(fn, func(in ssa.Instruction) {
+			mu, ok := in.(*ssa.MapUpdate)
+			if !ok {
+				return
+			}
+			mt, ok := mu.Map.Type().Underlying().(*types.Map)
+			if !ok || !isByteSlice(mt.Elem()) {
+				return // message.Column is an alias of []byte
+			}
+			if k, ok := constStr(mu.Key); ok {
+				if dt := encodedWith(p, mu.Value, 2); dt != "" {
+					local[k] = dt
+				} else {
+					local[k] = "(precomputed)"
+				}
+			}
+		})
+	}
+	sort.Slice(lookups, func(i, j int) bool { return lookups[i].Pos() < lookups[j].Pos() })
+	for _, cb := range lookups {
+		pr := lookupProducers(p, cb)
+		isPeers := false
+		for k := range pr {
+			if peersOnly[k] {
+				isPeers = true
+			}
+		}
+		dst := localExtra
+		if isPeers {
+			dst = peerExtra
+		}
+		for k, v := range pr {
+			dst[k] = v
+		}
+	}
+	return
+}
+
 func c10Producers(p *Prog, r *Report) {
 	const rule = "C10.column-producers"
 	r.Rule(rule, "every column advertised for system.local and system.peers (plain and DSE) has a value producer, and the datatype the producer encodes with is wire-compatible with the advertised column type (list and set share a wire format)")
-	local := producersIn(p, "proxy", "buildLocalRow")
-	localExtra := producersIn(p, "proxy", "filterSystemLocalValues")
-	peerExtra := producersIn(p, "proxy", "filterSystemPeerValues")
-	if len(local) < 8 || len(localExtra) < 2 || len(peerExtra) < 4 {
-		fatalf("rule %s: producers not found (local row %d, local extra %d, peer extra %d)", rule, len(local), len(localExtra), len(peerExtra))
+	local, localExtra, peerExtra, lookups := c10ProducerSets(p)
+	if len(local) < 8 || len(lookups) < 2 {
+		fatalf("rule %s: producers not found (precomputed local row %d entries, %d value lookups handed to FilterValues)", rule, len(local), len(lookups))
 	}
 	check := func(table string, extra map[string]string) {
 		cols := columnTable(p, table)
@@ -244,30 +604,11 @@ func c10Producers(p *Prog, r *Report) {
 	// count(*) producers
 	var cb []string
 	cvn := constant.StringVal(p.constOf("parser", "CountValueName"))
-	for what, fnName := range map[string]string{"system.local": "filterSystemLocalValues", "system.peers": "filterSystemPeerValues"} {
-		found := false
-		info := p.TypesInfo("proxy")
-		for _, f := range p.Syntax("proxy") {
-			for _, d := range f.Decls {
-				fd, ok := d.(*ast.FuncDecl)
-				if !ok || fd.Name.Name != fnName {
-					continue
-				}
-				ast.Inspect(fd.Body, func(n ast.Node) bool {
-					if be, ok := n.(*ast.BinaryExpr); ok && be.Op == token.EQL {
-						for _, side := range []ast.Expr{be.X, be.Y} {
-							if tv, ok := info.Types[side]; ok && tv.Value != nil && tv.Value.Kind() == constant.String && constant.StringVal(tv.Value) == cvn {
-								found = true
-							}
-						}
-					}
-					return true
-				})
-			}
-		}
-		if !found {
-			cb = append(cb, "no value for count(...) on "+what)
-		}
+	if _, ok := localExtra[cvn]; !ok {
+		cb = append(cb, "no value for count(...) on system.local")
+	}
+	if _, ok := peerExtra[cvn]; !ok {
+		cb = append(cb, "no value for count(...) on system.peers")
 	}
 	r.check(len(cb) == 0, rule, "count(*)", "", "", strings.Join(cb, " || "))
 }
@@ -600,6 +941,32 @@ func c10Selectors(p *Prog, r *Report) {
 			fmt.Sprintf("columns:%s values:%s", dc, dv), fmt.Sprintf("Columns yields [%s] but Values yields [%s]: rows would not match their metadata", dc, dv))
 	}
 	r.Floor(rule, 5, "Selector implementations")
+	selectorInputs(p, r, rule)
+}
+
+// selectorInputs: Columns() and Values() of the selectors agree only when both are given the same
+// column list.  The values of a row must be produced from the table's columns: produced from the
+// already selected columns, every '*' yields one value per SELECTED column (rows with more values
+// than columns, and a response quadratic in the number of stars of the select list).
+func selectorInputs(p *Prog, r *Report, rule string) {
+	var bad []string
+	n := 0
+	for _, fn := range p.ScopedFuncs("proxy") {
+		eachCall(fn, func(c ssa.CallInstruction) {
+			if !callIsFunc(c, "parser", "FilterValues") || len(c.Common().Args) < 2 {
+				return
+			}
+			n++
+			for _, o := range originsInter(p, c.Common().Args[1], 3) {
+				if ex, ok := o.(*ssa.Extract); ok {
+					if cc, ok := ex.Tuple.(*ssa.Call); ok && callIsFunc(cc, "parser", "FilterColumns") {
+						bad = append(bad, fmt.Sprintf("%s: the row values are produced from the selected columns (the result of FilterColumns) instead of the table's columns: each '*' then stands for every selected column again (more values than columns; k stars give k*k*N values)", p.Pos(c.Pos())))
+					}
+				}
+			}
+		})
+	}
+	r.check(len(bad) == 0 && n >= 2, rule, "selector inputs", "", fmt.Sprintf("%d FilterValues call(s) fed with the table's columns", n), strings.Join(dedupe(bad), " || "))
 }
 
 func c10Rows(p *Prog, r *Report) {
@@ -814,10 +1181,27 @@ func c10HostID(p *Prog, r *Report) {
 		bad = append(bad, fmt.Sprintf("byte 8 is not masked to the RFC 4122 variant (&0x3F |0x80), found &%#x |%#x", masks[8][0], masks[8][1]))
 	}
 	r.check(len(bad) == 0, rule, "proxy.nameBasedUUID", p.Pos(fn.Pos()), "", strings.Join(bad, " || "))
-	// call sites: local -> localIP().String(), peers -> peer.addr.String()
+	// call sites, by role: the value lookup of the local row derives the id from the local address,
+	// the lookup of the peers rows from that peer's address, and both spell the address the same
+	// way (the same String method): the same node must get the same id in every proxy's view
 	var cb []string
 	n := 0
-	for _, g := range p.ScopedFuncs("proxy") {
+	_, _, _, lookups := c10ProducerSets(p)
+	peersOnly := map[string]bool{}
+	lc := columnTable(p, "SystemLocalColumns")
+	for cn := range columnTable(p, "SystemPeersColumns") {
+		if _, both := lc[cn]; !both {
+			peersOnly[cn] = true
+		}
+	}
+	spell := map[string]string{}
+	for _, g := range lookups {
+		isPeers := false
+		for k := range lookupProducers(p, g) {
+			if peersOnly[k] {
+				isPeers = true
+			}
+		}
 		eachCall(g, func(c ssa.CallInstruction) {
 			if c.Common().StaticCallee() != fn {
 				return
@@ -825,30 +1209,36 @@ func c10HostID(p *Prog, r *Report) {
 			n++
 			arg := c.Common().Args[0]
 			desc := valDesc(arg)
-			root := rootFn(g).Name()
-			switch {
-			case strings.Contains(root, "Local"):
+			cc, ok := arg.(*ssa.Call)
+			if !ok || cc.Call.StaticCallee() == nil || cc.Call.StaticCallee().Name() != "String" {
+				cb = append(cb, "host id is not derived from the textual form of an address ("+desc+")")
+				return
+			}
+			recv := cc.Call.Args[0]
+			if isPeers {
+				spell["peers"] = cc.Call.StaticCallee().String()
+				if !strings.Contains(fieldPath(recv), ".addr") {
+					cb = append(cb, "peer host id is not derived from that peer's address ("+desc+")")
+				}
+			} else {
+				spell["local"] = cc.Call.StaticCallee().String()
 				okLocal := false
-				if cc, ok := arg.(*ssa.Call); ok && cc.Call.StaticCallee() != nil && cc.Call.StaticCallee().Name() == "String" {
-					if lc, ok := cc.Call.Args[0].(*ssa.Call); ok && lc.Call.StaticCallee() != nil && lc.Call.StaticCallee().Name() == "localIP" {
+				for _, o := range origins(recv) {
+					if lc, ok := o.(*ssa.Call); ok && lc.Call.StaticCallee() != nil && p.InRepo(lc.Call.StaticCallee()) {
+						okLocal = true // the connection's local address helper
+					}
+					if strings.Contains(fieldPath(o), "localNode") {
 						okLocal = true
 					}
 				}
 				if !okLocal {
 					cb = append(cb, "local host id is not derived from the local address ("+desc+")")
 				}
-			case strings.Contains(root, "Peer"):
-				okPeer := false
-				if cc, ok := arg.(*ssa.Call); ok && cc.Call.StaticCallee() != nil && cc.Call.StaticCallee().Name() == "String" {
-					if strings.HasSuffix(fieldPath(cc.Call.Args[0]), ".addr") {
-						okPeer = true
-					}
-				}
-				if !okPeer {
-					cb = append(cb, "peer host id is not derived from that peer's address ("+desc+")")
-				}
 			}
 		})
+	}
+	if spell["local"] != "" && spell["peers"] != "" && spell["local"] != spell["peers"] {
+		cb = append(cb, fmt.Sprintf("the local row spells the address with %s, the peers rows with %s: for an address with a zone (fe80::1%%eth0) the two texts differ, so a node's own host_id is not the host_id its peers present for it", spell["local"], spell["peers"]))
 	}
 	r.check(len(cb) == 0 && n >= 2, rule, "host_id producers", "", fmt.Sprintf("%d sites", n), strings.Join(cb, " || "))
 }
